@@ -39,7 +39,8 @@ ACK, NAK, ABORT = b"\x5a\xa1", b"\x5a\xa2", b"\x5a\xa3"
 IN_TAGS, OUT_TAGS, VALUE_TAGS = {0x03, 0x10, 0x17}, {0x04, 0x08, 0x14}, {0x07, 0x0F}
 # the twin's properties, each in the shape the bootloader defines for it (unknown properties are answered with kStatus_UnknownProperty)
 PROPS = {1: [0x4B030100], 2: [0x1F], 3: [0], 4: [0x80000], 5: [0x1000], 7: [0xFFFF], 10: [1], 11: [0], 12: [0x1000, 0x1FFF, 0x20000000, 0x20000FFF],
-         14: [0x20000000], 15: [0x10000], 16: [0x12345678], 17: [0], 18: [1, 2, 3, 4], 24: [0x54010000]}
+         14: [0x20000000], 15: [0x10000], 16: [0x12345678], 17: [0], 18: [1, 2, 3, 4], 24: [0x54010000],
+         0x30: [0x1234], 0x31: [7]}          # device-specific properties whose numbers no host-side enumeration knows
 UNKNOWN_PROPERTY = 10300
 
 
@@ -422,9 +423,9 @@ def make_args(op, length, salt, r):
         elif k == "idx":
             vals.append(r.choice(FUSE_IDX))
         elif k == "prop":
-            vals.append(r.choice([1, 1, 7, 12, 11]))
+            vals.append(r.choice([1, 1, 7, 12, 11, 0x30]))
         elif k == "propset":
-            vals.append(r.choice([10, 22, 0x16, 30]))
+            vals.append(r.choice([10, 22, 0x16, 30, 0x31, 0x30]))
         elif k == "small":
             vals.append(r.choice([0, 1, 2, 3, 7, 0x40, 0xFF]))
         elif k == "four":
@@ -572,7 +573,7 @@ def do_cli(twin, proto, cmd, length, salt, r, workdir):
             vals.append(length)
         else:
             vals.append(make_args(op, length, salt, r)[0] if False else {"word": r.choice(WORDS + [r.getrandbits(32)]), "memraw": r.choice([0, 1, 9, 0x100, 0x110]),
-                                                                          "mem": r.choice(MEMS), "prop": r.choice([1, 7, 12, 11]), "propset": r.choice([10, 22, 30]),
+                                                                          "mem": r.choice(MEMS), "prop": r.choice([1, 7, 12, 11, 0x30]), "propset": r.choice([10, 22, 30, 0x31]),
                                                                           "small": r.choice([0, 1, 2, 7]), "four": 4,
                                                                           "addr": r.choice([0x100, 0x400, 0x4000, r.randrange(0, 0x6000) & ~3])}[k])
     drop = r.randrange(0, nopt + 1)          # trailing optional arguments left out (their default is 0)
